@@ -177,7 +177,7 @@ def run_case(case):
                             vi = si[i, j, order]
                             ve = se[i, j, order]
                             results[(name, i, j, order)] = (vi, ve)
-            kpm_warned = any(issubclass(w.category, RuntimeWarning) for w in wl)
+            kpm_warned = any(issubclass(w.category, RuntimeWarning) and "converge" in str(w.message) for w in wl)
     except Exception as e:  # noqa: BLE001
         import traceback
 
